@@ -966,7 +966,6 @@ func constCond(v ssa.Value) (bool, bool) {
 	return false, false
 }
 
-
 // constArgEverywhere: the parameter receives a constant at every call of its function inside the library (all calls
 // static); returns the largest.
 func (x *Ctx) constArgEverywhere(par *ssa.Parameter) (*big.Int, bool) {
